@@ -254,6 +254,9 @@ namespace vh
     inline bool selected(const char* prop, const char* op, const char* type);
     inline OpStat& reg(const char* prop, const char* op, const char* type)
     {
+        for (OpStat* e : registry())
+            if (e->prop == prop && e->op == op && e->type == type)
+                return *e;
         OpStat* s = new OpStat;
         s->prop = prop;
         s->op = op;
@@ -297,6 +300,9 @@ namespace vh
     inline void note_na(const char* prop, const char* op, const char* type, const char* why)
     {
         if (ctx().prop && strcmp(ctx().prop, prop) != 0)
+            return;
+        static std::map<std::string, int> seen; // one line per (prop, op, type)
+        if (seen[std::string(prop) + "|" + op + "|" + type]++)
             return;
         emit(std::string("{\"t\":\"na\",\"prop\":") + jstr(prop) + ",\"op\":" + jstr(op) + ",\"type\":" + jstr(type) + ",\"why\":" + jstr(why) + "}");
     }
